@@ -87,6 +87,21 @@ for label, table, holder, attr, cname in specs:
             row["c_value"] = raw_u32(sim, offs[cname])
             back = getattr(holder(sim), attr)
             row["readback"] = back if isinstance(back, (int, str)) else repr(back)
+            # the same option set by its integer value (documented: "int or string"): must land in the same C member and nowhere else
+            sim2 = rebound.Simulation()
+            nbytes = ctypes.sizeof(sim2)
+            before = ctypes.string_at(ctypes.addressof(sim2), nbytes)
+            setattr(holder(sim2), attr, int(val))
+            after = ctypes.string_at(ctypes.addressof(sim2), nbytes)
+            row["c_value_int"] = raw_u32(sim2, offs[cname])
+            back2 = getattr(holder(sim2), attr)
+            row["readback_int"] = back2 if isinstance(back2, (int, str)) else repr(back2)
+            row["other_bytes_changed_int"] = [k for k in range(nbytes) if before[k] != after[k] and not (offs[cname] <= k < offs[cname] + 4)][:8]
+            sim3 = rebound.Simulation()
+            before = ctypes.string_at(ctypes.addressof(sim3), nbytes)
+            setattr(holder(sim3), attr, name)
+            after = ctypes.string_at(ctypes.addressof(sim3), nbytes)
+            row["other_bytes_changed_name"] = [k for k in range(nbytes) if before[k] != after[k] and not (offs[cname] <= k < offs[cname] + 4)][:8]
         except Exception as e:
             row["error"] = "%s: %s" % (type(e).__name__, e)
         rows.append(row)
@@ -239,6 +254,9 @@ def main():
                 v = z3.Int('v')
                 ob.prove("setting %s=%r stores %s in the C member and reads back as the same name" % (label, nm, en),
                          z3.And(row['c_value'] == enums[en], row['pyvalue'] == enums[en], z3.BoolVal(str(row['readback']).lower() == nm.lower())), [], on_sat=on_sat3, domain='finite')
+                ob.prove("setting %s=%d (the integer value of %r) stores it in the same C member, reads back as that name and changes no other byte of the simulation" % (label, enums[en], nm),
+                         z3.And(row.get('c_value_int') == enums[en], z3.BoolVal(str(row.get('readback_int')).lower() == nm.lower()), z3.BoolVal(not row.get('other_bytes_changed_int'))), [], on_sat=on_sat3, domain='finite', sample=dict(row=row))
+                ob.prove("setting %s=%r by name changes no other byte of the simulation" % (label, nm), z3.BoolVal(not row.get('other_bytes_changed_name')), [], on_sat=on_sat3, domain='finite')
             else:
                 ob.prove("setting %s=%r stores the address of the C function of the same meaning" % (label, nm), row['c_value'] == row['expected'], [], on_sat=on_sat3, domain='finite')
     code = finish(PID, tier, rep, t0,
